@@ -20,7 +20,7 @@ func init() {
 		Rule: "twin monitor: sketches A and B (both variants, all 5 store kinds, all mapping kinds) receive the same seeded mutation history; A additionally receives, between mutations, random read-only calls (quantiles single/batch, count/min/max/sum, ForEach with early stop, Bins, KeyAtRank, MinIndex/MaxIndex, ToProto, EncodeProto, Encode, Copy, being the argument of MergeWith and of ChangeMapping); " +
 			"the observation of A must be identical across every read-only call and equal to B's at the end; copies taken at random points must equal the original at copy time and, after disjoint suffixes on both sides, each must equal its own sequentially replayed twin. " +
 			"Second pass (race-detector build): a sketch/store and its Copy are hammered by two unsynchronised goroutines; any DATA RACE report is shared mutable state between independent objects. Non-trivial = the hook saw a read-only call reorganise the representation (sort/compact) or a copy followed by mutations on both sides; distinct = hash of the history.",
-		Cases:     core.Scale(6000, 200000),
+		Cases:     core.Scale(10000, 250000),
 		Mandatory: []string{"oracle.read_purity_checks", "oracle.twin_equalities", "oracle.copy_equalities", "oracle.copy_independence_checks", "layout.read_reorganised", "read.Encode", "read.ToProto", "read.EncodeProto", "read.Bins", "read.as_merge_argument", "read.as_change_mapping_source", "race.pairs"},
 		Assumptions: []string{
 			"dyadic weights: observations are bitwise comparable whatever the iteration order of the sparse store",
@@ -34,7 +34,7 @@ func init() {
 		Level: "exploration",
 		Rule: "twin monitor: X = history H1, Clear, history H2; Y = freshly constructed object, H2; the observation of X must equal Y's right after Clear and after every event of H2. H2 uses other index ranges than H1 (inside, overlapping, far below/above the old window, other pages), repeated clear/reuse cycles, DecodeAndMergeWith/MergeWith as first event after Clear; " +
 			"sketch level (both variants, all 5 store kinds with the same N) and store level (all observers vs the exact model of a fresh store, after every event). Non-trivial = the hook shows retained capacity reused or a previously collapsed store cleared; distinct = hash of both histories.",
-		Cases:     core.Scale(8000, 250000),
+		Cases:     core.Scale(16000, 400000),
 		Mandatory: []string{"oracle.clear_twin_checks", "layout.reuse_capacity", "layout.cleared_collapsed", "clear.then_decode_first", "clear.then_merge_first", "clear.cycles", "oracle.store_checks"},
 		Run:       runC15,
 	})
